@@ -391,13 +391,13 @@ def shards(tier, seed):
     big = tier == "thorough"
     out = []
     for fmt in OBJ.ALL_FORMATS:
-        out.append((f"obj_{fmt}", "shard_objects", {"fmt": fmt, "max_examples": 600 if big else 150}))
-    out.append(("obj_json_qcschema_b", "shard_objects", {"fmt": "json_qcschema", "max_examples": 600 if big else 150}))
+        out.append((f"obj_{fmt}", "shard_objects", {"fmt": fmt, "max_examples": 5000 if big else 150}))
+    out.append(("obj_json_qcschema_b", "shard_objects", {"fmt": "json_qcschema", "max_examples": 5000 if big else 150}))
     for i in range(3):
-        out.append((f"conversions{i}", "shard_conversions", {"max_examples": 600 if big else 80}))
+        out.append((f"conversions{i}", "shard_conversions", {"max_examples": 4000 if big else 80}))
     for fmt in ("xyz", "pdb", "mol2", "sdf"):
-        out.append((f"many_{fmt}", "shard_many", {"fmt": fmt, "max_examples": 400 if big else 60}))
-    out.append(("inputs", "shard_inputs", {"max_examples": 3000 if big else 400}))
+        out.append((f"many_{fmt}", "shard_many", {"fmt": fmt, "max_examples": 3000 if big else 60}))
+    out.append(("inputs", "shard_inputs", {"max_examples": 20000 if big else 400}))
     return out
 
 
